@@ -654,6 +654,82 @@ def check_nonsymmetric(ctx, model, n):
             ctx.disagree("estim.power.property", case0, bad, None, oracle=oracle)
 
 
+def oracle_complexpower(case):
+    """C17_power_complex on the real code: |mu| <= ||B||_2 for a complex (non-Hermitian) square B; mu real when B is Hermitian"""
+    import scico.numpy as snp
+    from scico.linop import MatrixOperator, power_iteration
+
+    Bm = np.asarray(case["Bre"], dtype=np.float64) + 1j * np.asarray(case["Bim"], dtype=np.float64)
+    B = MatrixOperator(snp.array(Bm))
+    nB = float(np.linalg.norm(Bm, 2))
+    herm = bool(np.array_equal(Bm, Bm.conj().T))
+    for k in case["budgets"]:
+        r = _impl(lambda: power_iteration(B, maxiter=k, key=G.make_key(case.get("key"))))
+        if k < 1:
+            if not (r[0] == "err" and r[1] == "value"):
+                return {"why": "maxiter < 1 is not rejected with ValueError", "got": str(r)}
+            continue
+        if r[0] == "err":
+            return {"why": "power_iteration raised", "maxiter": k, "error": r[2]}
+        mu = complex(np.asarray(r[1][0]))
+        if abs(mu) > nB * (1 + 1e-9) + 1e-300:
+            return {"why": "|mu| exceeds the induced 2-norm of the complex operator", "maxiter": k, "mu": str(mu), "norm": nB}
+        if herm and abs(mu.imag) > 1e-12 * nB:
+            return {"why": "Rayleigh quotient of a Hermitian operator is not real", "maxiter": k, "mu": str(mu)}
+    return None
+
+
+ORACLES["complexpower"] = oracle_complexpower
+
+
+def check_complexpower(ctx, model, n):
+    """power_iteration on complex square matrices, Hermitian or not (complex `mu`), against `powerIterationC` at Float: complex
+    value and vector for every budget of the ladder, `maxiter = 0`, and the bound |mu| <= ||B||"""
+    import scico.numpy as snp
+    from scico.linop import MatrixOperator, power_iteration
+
+    rng = ctx.rng
+    fixed = [([[0.0, 1.0], [0.0, 0.0]], [[0.0, 0.0], [0.0, 0.0]]), ([[0.0]], [[1.0]]), ([[1.0, 0.0], [0.0, 2.0]], [[0.0, 1.0], [-1.0, 0.0]]),
+             ([[0.0, 0.0], [0.0, 0.0]], [[0.0, 0.0], [0.0, 0.0]])]
+    for i in range(n + len(fixed)):
+        if i < len(fixed):
+            Bre, Bim = (np.asarray(a, dtype=np.float64) for a in fixed[i])
+        else:
+            d = int(rng.integers(1, 4))
+            Bre, Bim = common.dyadic(rng, (d, d), bits=2, scale=3.0), common.dyadic(rng, (d, d), bits=2, scale=3.0)
+            if rng.integers(0, 4) == 0:  # Hermitian
+                Bre, Bim = (Bre + Bre.T) / 2.0, (Bim - Bim.T) / 2.0
+        key = [None, 1, 2][i % 3]
+        Bm = Bre + 1j * Bim
+        B = MatrixOperator(snp.array(Bm))
+        v0 = np.asarray(G.start_vector(B, key))
+        case0 = {"what": "complexpower", "Bre": Bre.tolist(), "Bim": Bim.tolist(), "key": key, "budgets": [0, 1, 2, 3, 5, 10]}
+        ctx.count("op:complex-hermitian" if np.array_equal(Bm, Bm.conj().T) else "op:complex-non-hermitian")
+        for k in case0["budgets"]:
+            ctx.case({"what": "complexpower", "n": int(Bre.shape[0]), "budget": k}, None if k < 1 else json.dumps([Bre.tolist(), Bim.tolist(), key, k]))
+            r = _impl(lambda: power_iteration(B, maxiter=k, key=G.make_key(key)))
+            m = _model(model, "powerc", Bre=rows(Bre), Bim=rows(Bim), vre=fs2b(v0.real), vim=fs2b(v0.imag), maxiter=int(k))
+            if r[0] == "err" or m[0] == "err":
+                if not (r[0] == "err" and m[0] == "err" and r[1] == m[1]):
+                    ctx.disagree("estim.powerc.reject", {**case0, "budget": k}, list(map(str, r)), list(map(str, m)), oracle=oracle)
+                continue
+            mu, v = r[1]
+            mu = complex(np.asarray(mu))
+            v = np.asarray(v)
+            mmu = complex(*common.b2fs(m[1]["mu"]))
+            mv = np.asarray(common.b2fs(m[1]["vre"])) + 1j * np.asarray(common.b2fs(m[1]["vim"]))
+            if mu == 0 and mmu == 0:
+                ctx.count("branch:zero-exit")
+            scale = float(np.linalg.norm(Bm, 2))
+            okk = abs(mu - mmu) <= 64e-9 * k * max(scale, 1e-300) and np.allclose(v, mv, rtol=0, atol=64e-8 * k)
+            if not okk:
+                ctx.disagree("estim.powerc", {**case0, "budget": k}, {"mu": str(mu), "v": str(v.tolist())}, {"mu": str(mmu), "v": str(mv.tolist())}, oracle=oracle)
+                break
+        bad = oracle_complexpower(case0)
+        if bad is not None:
+            ctx.disagree("estim.powerc.property", case0, bad, None, oracle=oracle)
+
+
 def check_pdhg(ctx, model, case):
     import scico.numpy as snp
     from scico.optimize import PDHG
@@ -1061,6 +1137,10 @@ def run_case(ctx, model, case):
         r = oracle_power_vector(case)
         if r is not None:
             ctx.disagree("estim.power.vector", case, r, None, oracle=oracle)
+    elif w == "complexpower":
+        r = oracle_complexpower(case)
+        if r is not None:
+            ctx.disagree("estim.powerc.property", case, r, None, oracle=oracle)
     elif w == "nonsym":
         r = oracle_nonsym(case)
         if r is not None:
@@ -1102,6 +1182,7 @@ def correspond(ctx, model):
     check_nilpotent(ctx, model)
     check_nonfinite(ctx, model)
     check_nonsymmetric(ctx, model, ctx.n(16, 120))
+    check_complexpower(ctx, model, ctx.n(16, 120))
     for i in range(ctx.n(60, 250)):
         desc = G.gen_operator(rng)
         key = [None, 0, 1, 2, 3][int(rng.integers(0, 5))]
@@ -1270,6 +1351,12 @@ def search(ctx, model, why):
             for Am in NONFINITE:
                 case = {"what": "nonfinite", "A": Am, "key": 1, "budgets": [1, 2, 3, 5]}
                 r = oracle_nonfinite(case)
+                if r is not None:
+                    return out(case, r)
+            for Bre, Bim in (([[0.0, 1.0], [0.0, 0.0]], [[0.0, 0.0], [0.0, 0.0]]), ([[1.0, 0.0], [0.0, 2.0]], [[0.0, 1.0], [-1.0, 0.0]]),
+                             ([[1.0, 2.0], [0.5, -1.0]], [[0.5, 0.0], [1.0, 2.0]])):
+                case = {"what": "complexpower", "Bre": Bre, "Bim": Bim, "key": 1, "budgets": [0, 1, 2, 3, 5, 10]}
+                r = oracle_complexpower(case)
                 if r is not None:
                     return out(case, r)
             for Bm in ([[0.0, 1.0], [0.0, 0.0]], [[1.0, 2.0], [-3.0, 0.5]], [[0.0, -2.0], [1.0, 0.0]]):
